@@ -283,6 +283,26 @@ checks {
   disabled = ["promql/regexp"]
 }
 `,
+	`prometheus "prom" {
+  uri = "http://127.0.0.1:1"
+  failover = ["http://127.0.0.1:2"]
+  required = false
+  include = [".*rules.*"]
+  tags = ["t1"]
+}
+prometheus "other" {
+  uri = "http://127.0.0.1:3"
+  exclude = ["nothing.*"]
+}
+rule {
+  match {
+    kind = "recording"
+  }
+  aggregate ".+" {
+    keep = ["job"]
+  }
+}
+`,
 	`owners {
   allowed = ["team-.+"]
 }
